@@ -10,11 +10,13 @@ cd $S/repo && git init -q . 2>/dev/null && git apply /verif/seeded/$ID/patch.dif
 go build ./... 2>$S/build.err || { echo "{\"id\":\"$ID\",\"error\":\"does not build\"}" > /tmp/cm/$ID.json; rm -rf $S; exit 1; }
 cd /verif
 caught=""; errs=""
-for p in $(python3 -c "import json;print(' '.join(c['property_id'] for c in json.load(open('/verif/MANIFEST.json'))['checks']))"); do
-  out=$(GOVC_REPO=$S/repo GOVC_WORK=$S/work GOVC_EVIDENCE_DIR=$S/ev bin/govc check -p $p 2>&1); rc=$?
-  if [ $rc -eq 1 ]; then caught="$caught $p"; echo "$out" | grep "^VIOLATION" | sed 's/ replay=[^ ]*//' | cut -c1-200 > /tmp/cm/$ID.$p.viol; fi
-  if [ $rc -ge 2 ]; then errs="$errs $p"; fi
+out=$(GOVC_REPO=$S/repo GOVC_WORK=$S/work GOVC_EVIDENCE_DIR=$S/ev bin/govc check -p all 2>&1)
+for p in $(echo "$out" | awk '/^EXIT /{ if ($3==1) print $2 }'); do
+  caught="$caught $p"
+  echo "$out" | grep "^VIOLATION property=$p " | sed 's/ replay=[^ ]*//' | cut -c1-200 > /tmp/cm/$ID.$p.viol
 done
+for p in $(echo "$out" | awk '/^EXIT /{ if ($3>=2) print $2 }'); do errs="$errs $p"; done
+if ! echo "$out" | grep -q "^EXIT "; then errs="all"; fi
 python3 - "$ID" "$caught" "$errs" <<'PY'
 import json,sys,glob,os
 id,caught,errs=sys.argv[1],sys.argv[2].split(),sys.argv[3].split()
